@@ -648,6 +648,22 @@ func run(c *hc.Ctx) error {
 		add(line, fmt.Sprintf("is=%s iscode=%s astype=%s as=%s str=%s", b[is], b[isCode], b[asType], b[as], str))
 	}
 
+	// ---- 2d. nil receivers: every (*Error) predicate is nil-safe and false
+	{
+		var ne *tgerr.Error
+		pan := func() (p any) {
+			defer func() { p = recover() }()
+			if ne.IsType("X") || ne.IsCode(420) || ne.IsOneOf("X", "") || ne.IsCodeOneOf(420, 0) {
+				c.Fail("matching", "nil *Error receiver", "a predicate on a nil *Error returned true")
+			}
+			return nil
+		}()
+		c.Eval("nil receiver predicates", true)
+		if pan != nil {
+			c.Fail("panic", "nil *Error receiver", fmt.Sprint(pan))
+		}
+	}
+
 	// ---- 3. other shapes: no argument, several numbers, empty parts, overflow, arbitrary strings
 	m := c.N(100000, 1000000)
 	for i := 0; i < m; i++ {
